@@ -193,8 +193,10 @@ def gen_schema(rng, profile="c02"):
         out = []
         for i in range(rng.choice([0, 1, 1, 2, 2] if rich else [0, 0, 0, 1, 1, 2])):
             t = gen_arg_type()
+            if rich and rng.random() < 0.25:
+                t = (t[0], t[1], True)  # more required arguments
             d = None
-            if rng.random() < 0.4:
+            if rng.random() < (0.25 if rich else 0.4):
                 d = gen_const_literal(rng, {"types": types}, t, allow_null=not t[2])
             out.append({"name": "xyzw"[i], "type": t, "default": d})
         return out
@@ -264,6 +266,15 @@ def gen_schema(rng, profile="c02"):
     qfields.append({"name": "nodes", "type": L(T("Node", rng.random() < 0.5), rng.random() < 0.5), "args": []})
     for i in range(rng.randint(1, 3)):
         qfields.append(gen_field(f"q{i}", -1))
+    if rich:
+        # the same field names on several parent types, each with its own (required) arguments
+        for fname in rng.sample(["n", "s", "ok", "any", "id", "friend"], rng.randint(1, 3)):
+            target = rng.choice(obj_names)
+            t = T(target) if fname == "friend" else wrap(T(rng.choice(SCALARS + ["Color"])))
+            args = gen_args()
+            if rng.random() < 0.6:
+                args = [{"name": "r", "type": T(rng.choice(["ID", "Int", "Color"]), True), "default": None}] + args[:1]
+            qfields.append({"name": fname, "type": t, "args": args})
     qfields.append({"name": "echo", "type": T(rng.choice(SCALARS)), "args": [{"name": "v", "type": gen_arg_type(), "default": None}] + gen_args()[:1]})
     add("Query", {"kind": "object", "ifaces": [], "fields": qfields})
     mutation = None
@@ -447,7 +458,12 @@ def gen_input_value(rng, info, t, depth=0, valid=True):
             ft = tt(f["type"])
             required = ft[2] and f["default"] is None
             if required or (rng.random() < 0.6 and depth <= 2):
-                out[f["name"]] = gen_input_value(rng, info, ft, depth + 1, valid)
+                if not ft[2] and rng.random() < 0.25:
+                    out[f["name"]] = None  # an explicit null is not an absent field (no default applies)
+                elif ft[2] and f["default"] is not None and not valid and rng.random() < 0.3:
+                    out[f["name"]] = None  # null for a non-null field with default: invalid, not the default
+                else:
+                    out[f["name"]] = gen_input_value(rng, info, ft, depth + 1, valid)
         return out
     return None
 
@@ -469,6 +485,7 @@ class DocGen:
         self.max_depth = max_depth
         self.frag_budget = rng.randint(0, 4)
         self.building = []  # fragments under construction (no cycles in valid docs)
+        self.seen_names = {}  # field name -> parent types it has been selected on
 
     # -- variables
     def var_for(self, t):
@@ -597,7 +614,11 @@ class DocGen:
         for a in f["args"]:
             at = tt(a["type"])
             required = at[2] and a["default"] is None
-            if self.invalid and required and rng.random() < 0.15:
+            elsewhere = bool(self.seen_names.get(f["name"], set()) - {parent})
+            if required and ((self.invalid and rng.random() < 0.15)
+                             or (self.profile == "c13" and rng.random() < (0.4 if elsewhere else 0.05))):
+                # a required argument left out (validate() decides; the same field name may have been
+                # seen before on another parent type, with other required arguments)
                 self.mutations_done.append("missing-required-arg")
                 continue
             if required or rng.random() < 0.6:
@@ -631,6 +652,11 @@ class DocGen:
                     sels.append(("field", rng.choice([None, None, "tn", "x"]), "__typename", [], self.dirs(), []))
                     continue
                 f = rng.choice(fields)
+                if self.profile == "c13" and rng.random() < 0.4:
+                    # prefer a field whose name was already selected on another parent type
+                    again = [x for x in fields if self.seen_names.get(x["name"], set()) - {parent}]
+                    if again:
+                        f = rng.choice(again)
                 if self.invalid and rng.random() < 0.05:
                     sels.append(("field", None, "nosuch", [], [], []))
                     self.mutations_done.append("unknown-field")
@@ -649,6 +675,7 @@ class DocGen:
                 if ra < 0.2:
                     alias = rng.choice(["x", "y", "z", f["name"] + "2", "id", "n"])
                 sels.append(("field", alias, f["name"], self.args_for(parent, f), self.dirs(), sub))
+                self.seen_names.setdefault(f["name"], set()).add(parent)
             elif r < 0.8:
                 # inline fragment
                 cond = self.pick_cond(parent)
